@@ -6,11 +6,11 @@ from pathlib import Path
 HERE = Path(__file__).resolve().parent
 PY = "/venv/bin/python /verif/check.py"
 
-HYGIENE = (" On every function these rules pass through (and its callees) eight exact Python-semantics lints run as rule H"
+HYGIENE = (" On every function these rules pass through (and its callees) nine exact Python-semantics lints run as rule H"
            " (sa/hygiene.py, DESIGN §8.2c): no state kept in a mutable default argument, no single-pass iterator consumed twice or inside"
            " a loop (also across a call), no stored closure over a loop variable, no regex flag in a count/maxsplit position, no"
            " comprehension clause reading a name bound by a later clause, no table entries glued by a missing comma, no enum alias, no"
-           " click option whose kind disagrees with the annotated parameter it fills.")
+           " click option whose kind disagrees with the annotated parameter it fills, no text-mode file I/O without an explicit encoding.")
 
 # property -> (technique, level text, level note, design ref)
 CHECKS: dict[str, tuple[str, str, str, str]] = {
